@@ -506,6 +506,13 @@ pub fn handwritten_typed() -> Vec<(String, Packet)> {
             }),
         ));
     }
+    // MAL: every element is a mod id, whatever its bytes look like
+    for id in [0u32, 1, u32::from_le_bytes(*b"XFG\0"), u32::from_le_bytes(*b"BA9\0"), u32::from_le_bytes(*b"xfg\0"), 0x00ff_ffff, 0x0100_0000, u32::MAX] {
+        let mut m = Mal::default();
+        let _ = m.insert(Vehicle::Mod(0x00ab_cdef));
+        let _ = m.insert(Vehicle::Mod(id));
+        out.push((format!("MAL with mod id {id:#010x}"), Packet::Mal(m)));
+    }
     // Mso with multi-codepage name/text and textstart on a character boundary
     for (name, text) in [
         ("abc", "hello"),
